@@ -186,6 +186,55 @@ def wl_vectors(ctx, rng, case):
     case.nontrivial = True
 
 
+_EXTREME = []
+
+
+def extreme_keys():
+    """data/fnv_extreme_keys.json: short ASCII keys (found once by tools/fnv_extremes.c, a search over ~10^11 states) whose running 64-bit
+    FNV-1a state for one of the hash indices 0..7 comes within 2^32 of 2^64 or of 0 right before a multiplication"""
+    if not _EXTREME:
+        import json
+        import os
+
+        with open(os.path.join(os.path.dirname(__file__), "..", "..", "data", "fnv_extreme_keys.json")) as fh:
+            _EXTREME.extend(json.load(fh))
+    return _EXTREME
+
+
+def wl_extreme_states(ctx, rng, case):
+    """keys that drive the running FNV-1a state to the extremes of the 64-bit range (about one random 8-character key in 10^8 does, per index):
+    the largest and smallest operands the multiply-and-mask step ever sees.  Each is hashed alone and as the prefix of longer keys, as
+    text and as bytes, at the depth where the extreme occurs and beyond, and compared with the reference"""
+    from probables import hashes as H
+
+    key, idx, pos, which = extreme_keys()[case.index % len(extreme_keys())]
+    case.desc = {"key": key, "index_with_the_extreme_state": idx, "byte": pos, "extreme": which}
+    st = refimpl.FNV64_OFFSET + 31 * idx
+    for b in key.encode()[: pos + 1]:
+        st_x = (st % 2**64) ^ b
+        st = (st_x * refimpl.FNV64_PRIME) % 2**64
+    ctx.check(st_x >= 2**64 - 2**32 if which == "high" else st_x <= 2**32, "corpus entry does not have the extreme state it is listed with (harness data)", state=hex(st_x))
+    tails = ["", rng.choice("abcxyz019"), "".join(rng.choice("abcdefghij0123456789 _-") for _ in range(rng.randint(2, 30)))]
+    for tail in tails:
+        text = key + tail
+        data = text.encode("utf-8")
+        for depth in sorted({1, idx + 1, idx + 2, idx + 3, 8, 12, rng.randint(idx + 2, 40)}):
+            want = refimpl.fnv_chain(data, depth)
+            for spelled, arg in (("bytes", data), ("text", text)):
+                got = H.default_fnv_1a(arg, depth)
+                ctx.counters["oracle_evaluations"] += 1
+                if list(got) != want:
+                    bad = [i for i, (x, y) in enumerate(zip(got, want)) if x != y]
+                    ctx.fail(f"default_fnv_1a({spelled}, {depth}) differs from reference FNV-1a with the basis advanced by 31 per index, for a key whose running "
+                             f"state reaches the {which} extreme of the 64-bit range at index {idx}", key=text, wrong_indices=bad[:6])
+        for seed in (idx, idx + 1, 0):
+            ctx.check(H.fnv_1a(data, seed) == refimpl.fnv1a_64(data, seed) == H.fnv_1a(text, seed), "fnv_1a differs from reference FNV-1a 64 for a key with an extreme running state",
+                      key=text, seed=seed)
+        ctx.count("keys_checked_against_reference_fnv")
+    ctx.count("extreme_state_keys_checked")
+    case.nontrivial = True
+
+
 def wl_random(ctx, rng, case):
     """random longer / non-ASCII keys through every strategy, incl. decorator-built ones and structures' hashes()"""
     from probables import hashes as H
@@ -358,6 +407,7 @@ PROP = Prop(
         Workload("bytes_le2", wl_exhaustive_bytes, quick=257, thorough=257, exhaustive=True),
         Workload("ascii_le2", wl_exhaustive_ascii, quick=129, thorough=129, exhaustive=True),
         Workload("random", wl_random, quick=150, thorough=60000),
+        Workload("extreme_states", wl_extreme_states, quick=64, thorough=640),
         Workload("bytes_eq3", wl_exhaustive_3bytes, quick=0, thorough=65536, exhaustive=True),
     ],
     assumptions=["reference FNV-1a written from the published definition (offset basis, prime, xor-then-multiply)",
@@ -365,5 +415,5 @@ PROP = Prop(
     setup=setup,
     teardown=teardown,
     finish=finish,
-    required=["keys_checked_against_reference_fnv", "c_reference_hashes_compared", "text_vs_bytes_checked", "structure_hashes_checked"],
+    required=["keys_checked_against_reference_fnv", "c_reference_hashes_compared", "text_vs_bytes_checked", "structure_hashes_checked", "extreme_state_keys_checked"],
 )
